@@ -232,8 +232,10 @@ fn symmetry(t: &mut Tape, ctx: &mut Ctx, al: gen::Alpha) -> CheckResult {
         let np = t.permutation(f.nodes.len());
         let ep = t.permutation(f.edges.len());
         let r = f.renumber(&np, &ep);
-        if !iso(&f, &r).is_iso() {
-            panic!("harness: iso rejected a renumbering of one diagram: {} vs {}", f.pretty(), r.pretty());
+        match iso(&f, &r) {
+            IsoResult::NotIso(_) => panic!("harness: iso rejected a renumbering of one diagram: {} vs {}", f.pretty(), r.pretty()),
+            IsoResult::Inconclusive => ctx.inconclusive = true,
+            IsoResult::Iso => {}
         }
         ctx.sub("positive-control-renumbering");
     }
